@@ -1227,6 +1227,20 @@ func DeterminismBundles() []*Case {
 		))
 		add("rules", f)
 	}
+	{ // a hand-written proto in a sub-directory declaring a message with the simple name of an object of the parent package
+		a := file("s/v1", "a")
+		foo := obj("Foo", fld("name", T(TString)))
+		a.Add(foo)
+		b := file("s/v1", "b")
+		b.Add(obj("Bar", fld("foo", RefTo(foo, "")), fld("foos", ArrayOf(RefTo(foo, "")))))
+		sub := &File{Dir: "s/v1/service", Name: "extra", IsProto: true, ListedOnly: true}
+		sub.Add(obj("Foo", fld("other", T(TString))))
+		sub.Add(enumD("Kind", "ONE"))
+		c := file("s/v1", "c")
+		c.Add(enumD("Kind", "A", "B"))
+		c.Add(obj("Baz", fld("kind", RefTo(c.Decls[0].(*Decl), ""))))
+		add("same-name-in-sub-directory", a, b, c, sub)
+	}
 	{ // nested inline types
 		f := file("n/v1", "nest")
 		deep := obj("", fld("x", T(TString)), fld("e", InlineOf(enumD("", "A", "B"))))
